@@ -8,7 +8,9 @@ mod lib_api;
 mod lifecycle;
 mod mutate;
 mod props_verify;
+mod probe_tasks;
 mod props_aux;
+mod props_build;
 mod props_keys;
 mod props_life;
 mod props_pure;
@@ -37,6 +39,8 @@ fn runner(id: &str) -> Option<Runner> {
         "C09" => props_purity::run_c09,
         "C10" => props_aux::run_c10,
         "C11" => props_keys::run_c11,
+        "C14" => props_build::run_c14,
+        "C15" => props_build::run_c15,
         "C16" => props_keys::run_c16,
         "C12" => props_pure::run_c12,
         "C13" => props_pure::run_c13,
@@ -52,6 +56,8 @@ pub fn replay_case(case: &Value) -> Result<Vec<ctx::Viol>, String> {
         "c09" => props_purity::c09_replay(case),
         "c10" => props_aux::aux_replay(case),
         "c11" => props_keys::c11_replay(case),
+        "c14" => props_build::c14_replay(case),
+        "c15fv" | "c15sched" => props_build::c15_replay(case),
         "c16" => props_keys::c16_replay(case),
         "c12" => props_pure::c12_replay(case),
         "arith" => props_pure::arith_replay(case),
@@ -76,6 +82,7 @@ fn real_main() -> i32 {
                 2
             }
         },
+        Some("prebuild") => props_build::prebuild(),
         Some("life-one") => {
             let doc: Value = serde_json::from_str(&std::fs::read_to_string(&args[2]).unwrap()).unwrap();
             let cfg: lifecycle::LifeCfg = serde_json::from_value(doc["case"]["cfg"].clone()).unwrap();
